@@ -309,7 +309,13 @@ fn outcome_of(r: std::thread::Result<CheckResult>, ctx: &mut Ctx) -> CaseOutcome
         Ok(Err(v)) => CaseOutcome::Violation(v),
         Err(_) => {
             let p = take_panic();
-            if p.in_lib {
+            if p.message.starts_with(crate::functor_model::CALLBACK_VIOLATION) {
+                CaseOutcome::Violation(Violation {
+                    sub_check: "callback-arguments".into(),
+                    message: p.message[crate::functor_model::CALLBACK_VIOLATION.len()..].trim().to_string(),
+                    dump: ctx.dump.clone(),
+                })
+            } else if p.in_lib {
                 CaseOutcome::Violation(Violation {
                     sub_check: "no-panic".into(),
                     message: format!(
